@@ -1,10 +1,9 @@
 #!/bin/bash
-# Development aid: run every stored seeded change against its property's check at a given seed/tier.
+# Development aid: run every stored seeded change against its property's check at a given seed/tier (4 at a time).
 # usage: tools/seedsweep.sh <seed> [tier]
 cd "$(dirname "$0")/.."
-export VERIF_SEED="${1:-1}"; tier="${2:-quick}"
-for d in seeded/*/; do
-  n=$(basename $d); id=${n%%-*}
-  out=$(timeout 1500 tools/seedcheck.sh $d $n $tier $id 2>/dev/null | tail -1)
-  echo "$n seed=$VERIF_SEED $tier: $(echo "$out" | sed 's/^ *check //' | cut -c1-100)"
-done
+export VERIF_SEED="${1:-1}"; export SWEEP_TIER="${2:-quick}"
+ls -d seeded/*/ | xargs -P 4 -I{} bash -c '
+  d={}; n=$(basename $d); id=${n%%-*}
+  out=$(timeout 3000 tools/seedcheck.sh $d $n $SWEEP_TIER $id 2>/dev/null | tail -1)
+  echo "$n seed=$VERIF_SEED $SWEEP_TIER: $(echo "$out" | sed "s/^ *check //" | cut -c1-100)"'
